@@ -8,7 +8,8 @@ PROP = dict(
          "declared types / vectors, conditional fields flag.N?T over bits 0..31 with up to three flag fields named "
          "mode/flags/f2, conditional `true`); each schema is compiled by tl/parser twice (identical), the output is "
          "built against the repository and run on random values of every type and function. non-trivial = distinct "
-         "(schema, declaration, value) triple",
+         "(schema, declaration, value) triple; TL-B half: 6 (thorough 100) random TL-B schemas of 1..12 declarations, per "
+         "declared type 40 (200) random values through one go.tlbc.values line",
     trusted_base=[
         "harness/tlmini: schema generator, tokeniser, reflection binding by the generator's naming convention, "
         "reference encoder (inputs and go. oracles only); harness/tlexec executors",
@@ -25,7 +26,12 @@ PROP = dict(
         "CamelCase",
     ],
     partial=[
-        "TL-B schema compiler (tlb/parser GenerateGolangTypes over abi/schemas constructs): not covered by this check",
+        "TL-B half (tlb/parser GenerateGolangTypes): checked by DIRECT ORACLES ONLY (go.tlbc.*): random TL-B schemas over "
+        "fixed ints, ## n, bitsN, Bool, Coins, Maybe, Maybe ^, Either (incl. reference sides), ^T, ^Cell, $ and # tagged "
+        "unions; generated twice (identical), compiled, driven through tlb.Marshal/Unmarshal on random values and "
+        "compared cell-for-cell (hash) with the harness' reference encoder written from the TL-B rules. There is no Lean "
+        "model of TL-B in this property and no theorem (tlb_schema_sound of the design is NOT delivered); HashmapE and "
+        "implicit fields are not generated",
         "no theorem about generator.go (string templating over a participle AST)",
     ],
     level="proof",
@@ -36,5 +42,5 @@ PROP = dict(
     line_timeout="300s",
     go_jobs=4,
     search_cap=60000,
-    evidence_counters=dict(programs="programs"),
+    evidence_counters=dict(programs="programs", tlb_programs="tlb_programs"),
 )
